@@ -538,7 +538,7 @@ def main(tier, seed=0, replay=None, only=None, procs=None):
         'rotation_box': [-4, 4],
         'pauli_measurement': '9 signed observables on <=2 qubits, arbitrary symbolic state',
         'pauli_measurement.dm': 'same, density-matrix simulation state (rank-1 symbolic rho)',
-        'clifford': 'CliffordTableau._measure from an arbitrary valid tableau (obligation shared with C13)',
+        'clifford': 'CliffordTableau._measure from an arbitrary valid 2-qubit tableau (obligation shared with C13)',
         'outside': ['programs that measure, apply H + CNOT and measure two qubits again (mid_then_gate: the NRA equality of the probability products does not finish; left out, not claimed)', 'statistics of numpy generator itself', 'CH-form measurement', 'qudit measurements', 'complex64', 'more than 2 repetitions', 'sample_density_matrix'],
     }
     return run_check(PID, tier, 'checks.C02', SHIMS, LEVEL, BASE_ASSUMPTIONS, bounds, seed=seed, replay=replay, only=only, procs=procs)
